@@ -19,7 +19,7 @@ PRIM = {
     "cs": ["byte", "ushort", "uint", "ulong", "sbyte", "short", "int", "long", "float", "double", "bool"],
     "py": ["int", "float", "bool"],
 }
-USER_TAG_RE = re.compile(r"\{\{\{(USER_[^}\s]*)\}\}\}")
+USER_TAG_RE = re.compile(r"\{\{\{(USER_\w*)")
 PREFIX = "{{{USER_"
 
 
@@ -235,11 +235,24 @@ class Runner:
 
         cg.preserve_usercode_in_files = wrapper
         self.capture_ok = True
+        self.captured_out = []
+        if hasattr(cg, "createoutput"):
+            orig_co = cg.createoutput
+
+            def co_wrapper(self_, filenames_to_lines, *a, **kw):
+                try:
+                    outer.captured_out.append([(k, list(v)) for k, v in filenames_to_lines.items()])
+                except Exception:
+                    pass
+                return orig_co(self_, filenames_to_lines, *a, **kw)
+
+            cg.createoutput = co_wrapper
 
     def generate(self, model, outdir, copy_other=False):
         """returns (return value, captured fresh code model or None)"""
         G = self.G
         self.captured = []
+        self.captured_out = []
         with quiet():
             if model["kind"] == "sm":
                 itf = build_iface(self.kt, model["iface"])
